@@ -130,6 +130,8 @@ UnpairedFailed(e) ==
     \* two constant samples: the effective degrees of freedom are 0/0 - the documented outcome is InvalidInputData
     ELSE IF DySign(sa.v) = 0 /\ DySign(sb.v) = 0 /\ ~OkIv(e)
     THEN {c \in {"C04.domain"} : ~(e.out.tag = "err" /\ e.out.variant = "InvalidInputData")}
+    \* the overflow zone of the dof arithmetic: InvalidInputData is the documented outcome
+    ELSE IF ~OkIv(e) /\ "ovf" \in DOMAIN e THEN {c \in {"C04.domain"} : ~(e.out.tag = "err" /\ e.out.variant = "InvalidInputData")}
     ELSE IF ~OkIv(e) THEN {"C04.domain"}
     ELSE IF "designed" \in DOMAIN e
     THEN \* a designed pair: e.designed indexes the table; exchanged events see the samples swapped
@@ -182,6 +184,9 @@ GeoFailed(e) ==
          \cup {c \in {"C05.geo_sem"} : e.stats.sem.tag = "fin" /\ e.auxv.tsem.tag = "fin" /\
                  ~DyLe(DyAbs(DySub(FDy(e.stats.sem), DyMul(FDy(e.stats.mean), FDy(e.auxv.tsem)))),
                        DyAdd(DyShift(DyMulInt(DyAbs(FDy(e.stats.sem)), 8), 1 - PrecE(e)), SubnormalSlack(e)))}
+         \* G se(ln x) is an ordinary number (two observations suffice): the reported standard error is finite
+         \cup {c \in {"C05.geo_sem"} : e.stats.sem.tag # "fin" /\ e.auxv.tsem.tag = "fin" /\ e.stats.mean.tag = "fin" /\
+                 DyLt(DyMul(FDy(e.stats.mean), FDy(e.auxv.tsem)), Dy(BigOfInt(1), IF PrecE(e) = 53 THEN 1000 ELSE 120))}
          \cup {c \in {"C05.mean_inequality"} :
                  e.auxv.hmean.tag = "fin" /\ e.auxv.gmean.tag = "fin" /\ e.auxv.amean.tag = "fin" /\     \* (1/x overflows for subnormal x)
                  ~(LeUlp(e.auxv.hmean, e.auxv.gmean, PrecE(e), MeanIneqUlps(e.auxv.gmean)) /\ LeUlp(e.auxv.gmean, e.auxv.amean, PrecE(e), MeanIneqUlps(e.auxv.gmean)))}
@@ -261,10 +266,12 @@ Next ==
      \* the judge is evaluated once (stored in fl' first)
      /\ fl' = Failed1(e)
               \cup {c \in {GroupP(e) \o ".call_styles_agree"} : e.role = "style" /\ base # <<>> /\ ~SameOut(e.out, base)}
+              \* the same call on a fresh thread gives the same answer: no dependence on earlier calls
+              \cup {c \in {GroupP(e) \o ".history_independent"} : "out_fresh" \in DOMAIN e /\ ~SameOut(e.out, e.out_fresh)}
               \cup {c \in {"C04.exchange_mirrors"} : e.role = "exchange" /\ base # <<>> /\ ~Mirrored(base, e.out)}
      /\ (fl' # {}) => PrintT("BAD " \o ToJson([id |-> e.id, failed |-> fl']))
      /\ nbad' = nbad + (IF fl' = {} THEN 0 ELSE 1)
-     /\ cov' = Bump(cov, Clauses1(e)
+     /\ cov' = Bump(cov, Clauses1(e) \cup (IF "out_fresh" \in DOMAIN e THEN {GroupP(e) \o ".history_independent"} ELSE {})
                          \cup (IF e.role = "style" THEN {GroupP(e) \o ".call_styles_agree"} ELSE {})
                          \cup (IF e.role = "exchange" THEN {"C04.exchange_mirrors"} ELSE {}))
      /\ base' = IF e.first THEN e.out ELSE base
